@@ -16,9 +16,11 @@ void icb(string line, string tag, mixed carry) {
   case "err": zero = 1 / zero; break;
   case "again": vlog("\"e\":\"SetupRes\",\"how\":\"again\",\"ret\":" + input_to("icb", 0, "ok", carry)); break;
   case "againc": vlog("\"e\":\"SetupRes\",\"how\":\"againc\",\"ret\":" + get_char("icb", 0, "ok", carry)); break;
-  case "dest": destruct(this_object()); break;
+  case "dest": vlog("\"e\":\"DestOwner\""); destruct(this_object()); break;
   }
 }
+// callback of the function-pointer form: the bound argument comes first
+void fcb(string bound, string line, mixed carry) { icb(line, "ok", carry); }
 // how: line | char | noesc | noecho | fp (function pointer with bound value) | nofunc (function that does not exist) | twice
 void setup(string how, int i) {
   mixed v = get(i);
@@ -31,7 +33,7 @@ void setup(string how, int i) {
   case "char": r = get_char("icb", 0, tag, v); break;
   case "noesc": r = input_to("icb", 2, tag, v); break;
   case "noecho": r = input_to("icb", 1, tag, v); break;
-  case "fp": r = input_to((: icb, "fpline" :), 0, v); break;   // bound argument comes first: icb("fpline", <line>, v)
+  case "fp": r = input_to((: fcb, "bound" :), 0, v); break;   // bound argument comes first: fcb("bound", <line>, v)
   case "nofunc": e = catch(r = input_to("no_such_function", 0, tag, v)); break;
   case "nofuncc": e = catch(r = get_char("no_such_function", 0, tag, v)); break;
   case "nofuncu": r = input_to("no_such_function", 0, tag, v); break;      // uncaught
